@@ -126,7 +126,10 @@ def stress_campaign(chk, cfg, prop, plan, budget_s, label):
     update / TSan report / hang.  Returns True when something concrete was found."""
     found = False
     runs = []
+    hit = set()
     for variant, mode, args in plan:
+        if (variant, mode) in hit:
+            continue                                     # one concrete failing run per back-end and mode is enough
         try:
             # the store-buffering litmus needs the real hardware reordering: uninstrumented -O2 build
             exe, tsan = build_stress(cfg, variant, force_plain=(mode == "sb"))
@@ -150,6 +153,7 @@ def stress_campaign(chk, cfg, prop, plan, budget_s, label):
                      "result": bad or "ok"})
         if bad:
             found = True
+            hit.add((variant, mode))
             replay = ("# real-thread run (one concrete failing schedule was observed; rerun to reproduce, schedules vary)\n"
                       "# build: harness/stress.c + %s back-end of the working tree, %s\n"
                       "program: stress %s %s\nobserved: %s\n%s\n") % (
